@@ -185,6 +185,31 @@ func checkC02(c *Check) {
 			return false
 		}
 		pc := NewPathCounter(p, isA, isB)
+		// a nil test of the session object handed to the callback is dead:
+		// every value stored into the sessions map is a non-nil object
+		// (checked on the Store facts), so the paths under "u == nil" do not
+		// exist
+		if t.sessionValuesNonNil() && len(cb.Params) > 0 {
+			up := cb.Params[len(cb.Params)-1]
+			pc.CondEval = func(v ssa.Value) (bool, bool) {
+				neg := false
+				for {
+					if u, ok := v.(*ssa.UnOp); ok && u.Op == token.NOT {
+						v, neg = u.X, !neg
+						continue
+					}
+					break
+				}
+				b, ok := v.(*ssa.BinOp)
+				if !ok || (b.Op != token.EQL && b.Op != token.NEQ) {
+					return false, false
+				}
+				if (b.X == ssa.Value(up) && isNilConst(b.Y)) || (b.Y == ssa.Value(up) && isNilConst(b.X)) {
+					return (b.Op == token.NEQ) != neg, true
+				}
+				return false, false
+			}
+		}
 		r := NewResolver(p)
 		nret := 0
 		for _, b := range cb.Blocks {
